@@ -1059,6 +1059,17 @@ impl<'a> Run<'a> {
         let fails = check_doc(tree, &text, None, self.pol, &mut self.st);
         self.done += 1;
         self.st.add(pass, 1);
+        rep.outcome(match (kind(tree), fails.is_empty()) {
+            ("obj", true) => "object document: every oracle holds",
+            ("obj", false) => "object document: violation reported",
+            ("arr", true) => "array document: every oracle holds",
+            ("arr", false) => "array document: violation reported",
+            (_, true) => "scalar document: every oracle holds",
+            (_, false) => "scalar document: violation reported",
+        });
+        for f in &fails {
+            rep.outcome(&format!("violated oracle: {}", f.oracle));
+        }
         if !fails.is_empty() {
             report(rep, fails, &|| json!({"kind":"doc","text":text,"pass":pass}));
         } else {
